@@ -204,7 +204,11 @@ pub fn decoder_cases() -> i32 {
     });
     let mut bad = 0;
     for (name, c) in &cases {
-        match decoder::decode(&c[0], &c[1], &c[2]) {
+        let res = match decoder::decode(&c[0], &c[1], &c[2]) {
+            Ok(d) if !d.accounting.is_empty() => Err(d.accounting[0].clone()),
+            other => other,
+        };
+        match res {
             Ok(_) => {
                 println!("decoder selftest {name}: damaged image ACCEPTED");
                 bad += 1;
